@@ -311,8 +311,9 @@ def warm_jit():
     return time.time() - t0
 
 
-def pmap(fn, items, procs=None, chunksize=1):
-    """Map a top-level function over items in worker processes running the real code."""
+def pmap(fn, items, procs=None, chunksize=1, fresh=False):
+    """Map a top-level function over items in worker processes running the real code.
+    fresh=True: every item gets a NEW process (module-level state of the code under test starts empty)."""
     import multiprocessing as mp
 
     items = list(items)
@@ -321,13 +322,14 @@ def pmap(fn, items, procs=None, chunksize=1):
     setup_env()
     warm_jit()
     procs = min(procs or NCPU, len(items))
-    if procs <= 1:
+    if procs <= 1 and not fresh:
         _init_worker()
         res = [_call((fn, it)) for it in items]
     else:
         ctx = mp.get_context("spawn")
-        with ctx.Pool(procs, initializer=_init_worker) as pool:
-            res = pool.map(_call, [(fn, it) for it in items], chunksize=chunksize)
+        procs = max(procs, 1)
+        with ctx.Pool(procs, initializer=_init_worker, maxtasksperchild=1 if fresh else None) as pool:
+            res = pool.map(_call, [(fn, it) for it in items], chunksize=1 if fresh else chunksize)
     out = []
     for it, (st, val) in zip(items, res):
         if st == "err":
